@@ -38,12 +38,12 @@ PROPS = {
     "C01": P("custody", ["default", "queues", "big", "genesis"], ["theorem.C01", "bank", "assets", "uq"], ALL_OPS,
              "custody invariant proved over the model for all histories; model tied to the code by per-step trace correspondence",
              module=None),
-    "C02": P("unbonding payout", ["queues", "default", "genesis"], ["theorem.INV-I", "uq", "ui", "bank", "clock"], ["undelegate", "endblock", "slash", "reimport"],
+    "C02": P("unbonding payout", ["queues", "default", "genesis"], ["theorem.INV-I", "theorem.C02", "uq", "ui", "bank", "clock"], ["undelegate", "endblock", "slash", "reimport"],
              "queue/index theorems over the model; correspondence on undelegate, end-of-block and slash steps",
              module=None),
     "C03": P("share ledger", ["default", "queues", "big", "genesis"], ["vals", "dels", "assets"], ALL_OPS,
              "share-sum invariants over the model; correspondence of every share mutation", module=None),
-    "C04": P("position isolation", ["default", "big"], ["vals", "dels", "assets"], USER_OPS,
+    "C04": P("position isolation", ["default", "big"], ["theorem.C04", "vals", "dels", "assets"], USER_OPS,
              "value-frame theorems over the model; correspondence of the share arithmetic", module=None),
     "C05": P("user liveness", ["default", "rewards"], ["vals", "dels", "assets", "bank"], USER_OPS,
              "totality theorems under the stated liveness predicate; probes on a discarded branch after every step",
@@ -61,13 +61,13 @@ PROPS = {
              module=None),
     "C11": P("virtual staking tokens", ["staking", "rewards"], ["query", "supply", "bank", "staking"], ["endblock"] + USER_OPS + ["slash"],
              "mint/burn pairing theorems; correspondence of supply and pool balances; the bank SupplyOf/TotalSupply queries against the model's net-supply functions (`Q` lines)", module=None, probes="C11"),
-    "C12": P("reward pool solvency", ["rewards"], ["vals", "dels", "bank"], USER_OPS + ["slash", "endblock"],
+    "C12": P("reward pool solvency", ["rewards"], ["theorem.C12", "vals", "dels", "bank"], USER_OPS + ["slash", "endblock"],
              "partial solvency theorem; claim-all probes on a discarded branch", module=None, probes="C12"),
     "C13": P("reward entitlement", ["rewards"], ["vals", "dels", "bank"], USER_OPS,
              "index/claim theorems; correspondence of reward indices and payouts", module=None, probes="C13"),
     "C14": P("reward weight lifecycle", ["gov", "default"], ["assets", "snaps", "vals"], ["endblock", "update", "create"],
              "range invariant and decay exactness; correspondence of end-of-block and governance steps", module=None),
-    "C15": P("redelegation", ["queues", "genesis"], ["theorem.INV-R", "redels", "rq", "ri", "dels", "vals", "assets"], ["redelegate", "endblock", "reimport"],
+    "C15": P("redelegation", ["queues", "genesis"], ["theorem.INV-R", "theorem.C15", "redels", "rq", "ri", "dels", "vals", "assets"], ["redelegate", "endblock", "reimport"],
              "record/cleanup theorems; correspondence of redelegation steps", module=None),
     "C16": P("governance gate", ["gov"], ["assets", "params"], GOV_OPS,
              "gate and validity theorems for all field values; correspondence of the governance handlers", module=None),
